@@ -117,6 +117,40 @@ func YAMLMutants(src string) []Mutant {
 					m := get(r, p)
 					m.Content[ki] = &yaml.Node{Kind: yaml.SequenceNode, Tag: "!!seq", Style: yaml.FlowStyle, Content: []*yaml.Node{yamlScalar("!!str", "a"), yamlScalar("!!str", "b")}}
 				})
+				// anchors and aliases: the value of this key anchored and (a) aliased by a new sibling key, (b) aliased
+				// from inside itself (a cyclic node graph, which yaml.v3 accepts), (c) used as the value of its own key again
+				if v := n.Content[i+1]; v.Kind == yaml.MappingNode || v.Kind == yaml.SequenceNode {
+					emit("value anchored and aliased by a sibling "+lab, func(r *yaml.Node) {
+						m := get(r, p)
+						v := m.Content[ki+1]
+						v.Anchor = "anc"
+						m.Content = append(m.Content, yamlScalar("!!str", key+"Alias"), &yaml.Node{Kind: yaml.AliasNode, Alias: v, Value: "anc"})
+					})
+					emit("value anchored and aliased from inside itself "+lab, func(r *yaml.Node) {
+						v := get(r, p).Content[ki+1]
+						v.Anchor = "anc"
+						al := &yaml.Node{Kind: yaml.AliasNode, Alias: v, Value: "anc"}
+						if v.Kind == yaml.MappingNode {
+							v.Content = append(v.Content, yamlScalar("!!str", key), al)
+						} else {
+							v.Content = append(v.Content, al)
+						}
+					})
+				}
+				// the value replaced by a mapping / a sequence that contains only itself under the same key (the smallest
+				// cyclic node graph at this position: a recursive descent through this key never bottoms out)
+				emit("value replaced by a self-containing mapping "+lab, func(r *yaml.Node) {
+					m := get(r, p)
+					v := &yaml.Node{Kind: yaml.MappingNode, Tag: "!!map", Anchor: "cyc"}
+					v.Content = []*yaml.Node{yamlScalar("!!str", key), {Kind: yaml.AliasNode, Alias: v, Value: "cyc"}}
+					m.Content[ki+1] = v
+				})
+				emit("value replaced by a self-containing sequence "+lab, func(r *yaml.Node) {
+					m := get(r, p)
+					v := &yaml.Node{Kind: yaml.SequenceNode, Tag: "!!seq", Anchor: "cyc"}
+					v.Content = []*yaml.Node{{Kind: yaml.AliasNode, Alias: v, Value: "cyc"}}
+					m.Content[ki+1] = v
+				})
 				emit("key becomes empty "+lab, func(r *yaml.Node) {
 					k := get(r, p).Content[ki]
 					k.Value, k.Style = "", yaml.DoubleQuotedStyle
@@ -155,6 +189,11 @@ func YAMLMutants(src string) []Mutant {
 		{"merge key", "base: &b {profile: p}\n<<: *b\nvalidations: {}\n"},
 	} {
 		out = append(out, Mutant{Text: s.t, Desc: "special: " + s.d})
+	}
+	// embedded Rego that defines rules named like the ones the translator generates and the report is read from
+	for _, ext := range []string{"violation = 5", "violation = [5]", "violation = [{\"a\": 1}]", "warning = {}", "info = \"x\"", "profile = 1", "report = 5", "report[\"profile\"] = 7",
+		"default violation = []", "violation[x] { x := 1 }", "find = 1", "trace = 2", "nodes_array = 3", "path_rule = 4", "target_class[x] = y { x := 1; y := 2 }", "package other"} {
+		out = append(out, Mutant{Text: src + "\nrego_extensions: |\n  " + ext + "\n", Desc: "special: rego_extensions redefines " + ext})
 	}
 	return out
 }
